@@ -167,6 +167,8 @@ class Sess(object):
         self.groups = {}
         self.given = [[] for _ in self.kinds]     # ghost, maintained by the harness only
         self.ngroups = 0
+        self.lcm = {}            # open delay_callback(viewer.state, 'layers') blocks, per viewer
+        self.hcm = None          # open hub.delay_callbacks() block
 
     # -- objects
     def get_data(self, d):
@@ -201,8 +203,26 @@ class Sess(object):
                 k = i
         return (1, self.data_id(d), self.group_id(getattr(L, 'group', None)), k)
 
+    def close_blocks(self):
+        for vi, cm in list(self.lcm.items()):
+            try:
+                cm.__exit__(None, None, None)
+            except Exception:
+                pass
+        self.lcm = {}
+        if self.hcm is not None:
+            try:
+                self.hcm.__exit__(None, None, None)
+            except Exception:
+                pass
+            self.hcm = None
+
+    def in_block(self, vi):
+        return vi in self.lcm or self.hcm is not None
+
     def close(self):
         import matplotlib.pyplot as plt
+        self.close_blocks()
         for v in self.viewers:
             try:
                 v.cleanup()
@@ -258,7 +278,30 @@ class Sess(object):
             if d in self.given[vi]:
                 self.given[vi].remove(d)
         elif k == 'restore':
+            if self.lcm or self.hcm is not None:
+                raise InvalidHistory()
             self.restore()
+        elif k == 'lbegin':
+            from echo import delay_callback
+            if op[1] in self.lcm:
+                raise InvalidHistory()
+            cm = delay_callback(self.viewers[op[1]].state, 'layers')
+            cm.__enter__()
+            self.lcm[op[1]] = cm
+        elif k == 'lend':
+            if op[1] not in self.lcm:
+                raise InvalidHistory()
+            self.lcm.pop(op[1]).__exit__(None, None, None)
+        elif k == 'hbegin':
+            if self.hcm is not None:
+                raise InvalidHistory()
+            self.hcm = self.dc.hub.delay_callbacks()
+            self.hcm.__enter__()
+        elif k == 'hend':
+            if self.hcm is None:
+                raise InvalidHistory()
+            cm, self.hcm = self.hcm, None
+            cm.__exit__(None, None, None)
         else:
             raise KeyError(k)
         return 0
@@ -508,6 +551,12 @@ def model_ops(ops, vi):
             out.append((9, [op[2]]) if op[1] == vi else None)
         elif k == 'restore':
             out.append((8, []))
+        elif k == 'lbegin':
+            out.append((10, []) if op[1] == vi else None)
+        elif k == 'lend':
+            out.append((11, []) if op[1] == vi else None)
+        elif k in ('hbegin', 'hend'):
+            raise ValueError('hub delay blocks around collection operations are not modelled (oracle-only stream)')
     return out
 
 
@@ -573,7 +622,9 @@ def impl_history(kinds, ops, fixed, draw=False):
                 o['status'] = status if mine else 0
                 o['given'] = list(sess.given[vi])
                 impl[vi].append((i, o))
-                if orac is None:
+                # inside an open delay block the held-back callbacks / messages have not run yet: the invariants are evaluated
+                # when the block is left (and at every step outside blocks)
+                if orac is None and not sess.in_block(vi):
                     pr = sess.oracle(vi, fixed)
                     if pr:
                         orac = {'step': i, 'viewer': kinds[vi], 'problems': pr[:4]}
@@ -631,6 +682,8 @@ def cmp_history(kinds, ops, impl, outs):
 def run_history(R, kinds, ops, fixed, stream, draw=False):
     """single history, model included: returns (oracle failure or None, correspondence failure or None)"""
     conc, orac, impl = impl_history(kinds, ops, fixed, draw=draw)
+    if any(o[0] in ('hbegin', 'hend') for o in conc):
+        return orac, None        # hub delay blocks around collection operations: oracle only
     outs = R.model(history_lines(kinds, conc, fixed))
     return orac, cmp_history(kinds, conc, impl, outs)
 
@@ -671,7 +724,28 @@ def valid_history(ops):
             return False
         elif op[0] == 'addsub' and op[3] not in made:
             return False
-    return True
+    # delay blocks must stay balanced
+    openl, openh = set(), False
+    for op in ops:
+        if op[0] == 'lbegin':
+            if op[1] in openl:
+                return False
+            openl.add(op[1])
+        elif op[0] == 'lend':
+            if op[1] not in openl:
+                return False
+            openl.discard(op[1])
+        elif op[0] == 'hbegin':
+            if openh:
+                return False
+            openh = True
+        elif op[0] == 'hend':
+            if not openh:
+                return False
+            openh = False
+        elif op[0] == 'restore' and (openl or openh):
+            return False
+    return not openl and not openh
 
 
 def report_history(R, kinds, ops, fixed, stream, draw, orac, corr):
@@ -798,8 +872,86 @@ def stream_viewer_light(R, fixed):
              bound='all sequences over %d symbols (2 datasets, fresh groups, one viewer, save/restore, add_subset of any current subset, remove_layer of a dataset layer) of length <= %s after %d prefixes' % (len(LIGHT_SYMS), depth, len(prefixes)))
 
 
+def block_ok(syms):
+    """inside one delay block no dataset is both removed (remove_data / remove_layer / dc.remove) and added, in either order,
+    and no add_subset follows a removal (it could pick a subset of the removed dataset); see ASSUMPTIONS"""
+    gone, added = set(), set()
+    for s in syms:
+        if s[:3] in ('rmd', 'rml', 'rem'):
+            if s[-1] in added:
+                return False
+            gone.add(s[-1])
+        elif s[:3] == 'add' and s != 'addsub':
+            if s[-1] in gone:
+                return False
+            added.add(s[-1])
+        elif s == 'addsub' and gone:
+            return False
+    if 'addsub' in syms and gone:
+        return False
+    return True
+
+
+def stream_viewer_blocks(R, fixed):
+    """delay blocks: (A) delay_callback(viewer.state, 'layers') around viewer and collection operations - modelled, compared step by
+    step, invariants at block exit; (B) hub.delay_callbacks() around collection operations - oracle only, invariants at block exit"""
+    t0 = time.time()
+    prefixes = [[('append', 0), ('append', 1), ('newgroup', 0), ('add', 0, 0)],
+                [('append', 0), ('append', 1), ('add', 0, 0), ('add', 0, 1)],
+                [('append', 0), ('append', 1), ('newgroup', 0), ('add', 0, 0), ('rmlayer', 0, 0)]]
+    inblock = ['add0', 'add1', 'rmd0', 'rmd1', 'rml0', 'rml1', 'rem0', 'rem1', 'newg', 'rmg_old', 'addsub']
+    trailing = [(), ('add0',), ('rmd1',), ('newg',)]
+    depth = R.pick(2, 3)
+    batch = []
+    for prefix in prefixes:
+        for ln in range(1, depth + 1):
+            for syms in itertools.product(inblock, repeat=ln):
+                if not block_ok(syms):
+                    continue
+                for tr in trailing:
+                    ops = resolve_symbols(prefix, tuple(syms) + tr)
+                    if ops is None:
+                        continue
+                    k = len(prefix)
+                    ops = ops[:k] + [('lbegin', 0)] + ops[k:k + ln] + [('lend', 0)] + ops[k + ln:]
+                    conc, orac, impl = impl_history(['light'], ops, fixed)
+                    batch.append((conc, orac, impl))
+                    R.count(('lblock', tuple(map(tuple, conc))), nontrivial=True, stream='viewer_blocks_layers', history_len=len(conc))
+    outs = R.model([history_lines(['light'], conc, fixed)[0] for conc, _, _ in batch])
+    nfail = 0
+    for (conc, orac, impl), out in zip(batch, outs):
+        corr = cmp_history(['light'], conc, impl, [out])
+        if (orac or corr) and nfail < 3:
+            nfail += 1
+            report_history(R, ['light'], conc, fixed, 'viewer_blocks', False, orac, corr)
+    na = len(batch)
+    # (B) hub blocks around collection operations, oracle only
+    coll = ['app0', 'app1', 'rem0', 'rem1', 'newg', 'rmg_old']
+    nb = 0
+    for prefix in prefixes[:2]:
+        for ln in range(1, depth + 1):
+            for syms in itertools.product(coll, repeat=ln):
+                for tr in ((), ('add1',), ('newg',)):
+                    ops = resolve_symbols(prefix, tuple(syms) + tr)
+                    if ops is None:
+                        continue
+                    k = len(prefix)
+                    ops = ops[:k] + [('hbegin',)] + ops[k:k + ln] + [('hend',)] + ops[k + ln:]
+                    conc, orac, impl = impl_history(['light'], ops, fixed)
+                    nb += 1
+                    R.count(('hblock', tuple(map(tuple, conc))), nontrivial=True, stream='viewer_blocks_hub', history_len=len(conc))
+                    if orac and nfail < 5:
+                        nfail += 1
+                        report_history(R, ['light'], conc, fixed, 'viewer_blocks', False, orac, None)
+    R.sample({'viewer_blocks': [list(o) for o in prefixes[0]] + [['lbegin', 0], ['rmdata', 0, 0], ['add', 0, 1], ['lend', 0]]})
+    R.stream('viewer_blocks', layers_block_cases=na, hub_block_cases=nb, exhaustive=True, wall_s=round(time.time() - t0, 1),
+             bound='light viewer, 3 prefixes: every sequence of length <= %d over %d viewer/collection operations inside one delay_callback(state, "layers") block '
+                   '(no re-adding of a dataset removed in the same block), then 4 trailing operations; 2 prefixes: every sequence of length <= %d over %d collection '
+                   'operations inside one hub.delay_callbacks() block (oracle only), 3 trailing operations' % (depth, len(inblock), depth, len(coll)))
+
+
 # ---------------------------------------------------------------------- stream: matplotlib viewers, random
-def random_history(rng, nviewers, length, with_restore, ndata=3, lone=False):
+def random_history(rng, nviewers, length, with_restore, ndata=3, lone=False, blocks=False, hub=False):
     ops = []
     in_dc, live, dead, ng = set(), [], [], 0
     shown = [set() for _ in range(nviewers)]
@@ -823,6 +975,70 @@ def random_history(rng, nviewers, length, with_restore, ndata=3, lone=False):
             ng = 2
     for _ in range(length):
         r = rng.random()
+        if blocks and rng.random() < 0.18 and in_dc:
+            # a delay_callback(viewer.state, 'layers') block around viewer / collection operations; inside one block a dataset
+            # whose layers were removed is not added again (see ASSUMPTIONS)
+            vi = rng.randrange(nviewers)
+            ops.append(('lbegin', vi))
+            gone, added = set(), set()
+            for _k in range(rng.randrange(2, 4)):
+                q = rng.random()
+                if q < 0.35 and (shown[vi] - added):
+                    a = rng.choice(sorted(shown[vi] - added))
+                    ops.append(('rmdata', vi, a))
+                    shown[vi].discard(a)
+                    gone.add(a)
+                elif q < 0.5 and (in_dc - added):
+                    a = rng.choice(sorted(in_dc - added))
+                    ops.append(('remove', a))
+                    in_dc.discard(a)
+                    gone.add(a)
+                    for sh in shown:
+                        sh.discard(a)
+                elif q < 0.58 and (shown[vi] - added):
+                    a = rng.choice(sorted(shown[vi] - added))
+                    ops.append(('rmlayer', vi, a))
+                    shown[vi].discard(a)
+                    gone.add(a)
+                elif q < 0.66:
+                    ops.append(('newgroup', ng))
+                    live.append(ng)
+                    ng += 1
+                else:
+                    cand = sorted(in_dc - gone)
+                    if cand:
+                        b = rng.choice(cand)
+                        ops.append(('add', vi, b))
+                        shown[vi].add(b)
+                        added.add(b)
+            ops.append(('lend', vi))
+            continue
+        if hub and rng.random() < 0.2:
+            # a hub.delay_callbacks() block around collection operations only
+            ops.append(('hbegin',))
+            for _k in range(rng.randrange(2, 4)):
+                q = rng.random()
+                d = rng.randrange(ndata)
+                if q < 0.3:
+                    ops.append(('append', d))
+                    in_dc.add(d)
+                elif q < 0.55 and in_dc:
+                    d = rng.choice(sorted(in_dc))
+                    ops.append(('remove', d))
+                    in_dc.discard(d)
+                    for sh in shown:
+                        sh.discard(d)
+                elif q < 0.8:
+                    ops.append(('newgroup', ng))
+                    live.append(ng)
+                    ng += 1
+                elif live:
+                    g = rng.choice(live)
+                    live.remove(g)
+                    dead.append(g)
+                    ops.append(('rmgroup', g))
+            ops.append(('hend',))
+            continue
         if lone and r < 0.12 and live:
             g = rng.choice(live)
             live.remove(g)
@@ -924,25 +1140,31 @@ def stream_viewer_mpl(R, fixed):
         i += 1
         if not kinds:
             continue
-        ops = random_history(rng, len(kinds), length if i % 2 else max(4, length - 8), with_restore, lone=(i % 2 == 0))
+        hub = (i % 5 == 4)
+        ops = random_history(rng, len(kinds), length if i % 2 else max(4, length - 8), with_restore, lone=(i % 2 == 0),
+                             blocks=(i % 3 != 1), hub=hub)
         conc, orac, impl = impl_history(kinds, ops, fixed, draw=draw)
         batch.append((kinds, draw, conc, orac, impl))
         R.count(('mpl', tuple(kinds), tuple(map(tuple, conc))), nontrivial=any(o[0] in ('add', 'addsub') for o in conc), stream='viewer_mpl',
-                history_len=len(conc), viewer_kinds='+'.join(kinds), drawing=('agg' if draw else 'stub'), mpl_lone_subset_layer=has_lone_subset(impl))
+                history_len=len(conc), viewer_kinds='+'.join(kinds), drawing=('agg' if draw else 'stub'), mpl_lone_subset_layer=has_lone_subset(impl),
+                mpl_blocks=('hub' if any(o[0] == 'hbegin' for o in conc) else 'layers' if any(o[0] == 'lbegin' for o in conc) else 'none'))
         for o in conc:
             R.hist['viewer_op'][o[0]] += 1
         if len(batch) <= 2:
             R.sample({'viewer_mpl': {'kinds': kinds, 'ops': [list(o) for o in conc]}})
     lines = []
     for kinds, draw, conc, orac, impl in batch:
-        lines += history_lines(kinds, conc, fixed)
+        if not any(o[0] in ('hbegin', 'hend') for o in conc):
+            lines += history_lines(kinds, conc, fixed)
     outs = R.model(lines)
     nfail = 0
     p = 0
     for kinds, draw, conc, orac, impl in batch:
-        mine = outs[p:p + len(kinds)]
-        p += len(kinds)
-        corr = cmp_history(kinds, conc, impl, mine)
+        corr = None
+        if not any(o[0] in ('hbegin', 'hend') for o in conc):       # hub blocks around collection operations: oracle only
+            mine = outs[p:p + len(kinds)]
+            p += len(kinds)
+            corr = cmp_history(kinds, conc, impl, mine)
         if (orac or corr) and nfail < 3:
             nfail += 1
             report_history(R, kinds, conc, fixed, 'viewer_mpl', draw, orac, corr)
@@ -1765,6 +1987,7 @@ def run(R):
     stream_data_picker(R)
     stream_picker(R)
     stream_viewer_light(R, fixed)
+    stream_viewer_blocks(R, fixed)
     stream_viewer_mpl(R, fixed)
 
 
@@ -1775,7 +1998,7 @@ def replay(R, case):
         return {'note': 'this replay file records a broken proof / correspondence without a failing input of the property; see its `broken` and `correspondence_cases` fields', 'violates': False}
     st = case.get('stream')
     out = {'case': case}
-    if st in ('viewer_light', 'viewer_mpl'):
+    if st in ('viewer_light', 'viewer_mpl', 'viewer_blocks'):
         fixed = probe_fixed()
         ops = [tuple(o) for o in case['ops']]
         orac, corr = run_history(R, case['kinds'], ops, fixed, st, draw=case.get('draw', False))
